@@ -2,11 +2,12 @@
 from vlib import loopygen
 
 ID = "C03"
-COMPONENTS = ["loopylive"]
+COMPONENTS = ["loopylive", "s_loopyrun"]
 T4 = ["Loopy"]
 PROOF_MODULES = ["GrpcProofs.Properties.C03"]
 THEOREMS = ["GrpcProofs.C03." + t for t in (
-    "c03_holds", "no_lost_wakeup", "waiting_only_without_quota", "active_list_exact", "head_served", "round_robin", "served_within")]
+    "c03_holds", "no_lost_wakeup", "waiting_only_without_quota", "active_list_exact", "head_served", "round_robin", "served_within",
+    "idle_means_nothing_sendable")]
 DESIGN_REF = "DESIGN.md section 8, C03"
 TECHNIQUE = ("Lean 4 theorems: structural invariant Wf of the writer state by induction over the history (no lost wake-up is a consequence), "
              "progress and rotation of processData, and a variant argument (position on the active list) that turns 'eventually' into "
@@ -26,16 +27,20 @@ LEVEL_NOTE = ("Trusted: Lean kernel; the hand model (tied by the differential ru
               "from the list (orderOk, proved for every item), so they cannot push a stream back. A stream that applySettings re-activated "
               "although the new window still leaves it without quota is parked again by processData (harmless; reproduced by the model and "
               "allowed by the predicate).")
-GAP = ("run()'s batching / runtime.Gosched / flush logic and controlBuffer.get (the harness calls handle/processData itself); that run() keeps "
-       "calling processData until it reports isEmpty is read off the source, not tied")
-ASSUMPTIONS = ["stream ids are never registered while still established", "loopyWriter.run calls processData after every handled item and "
-               "repeatedly until it returns isEmpty (controlbuf.go run())"]
+GAP = ("http2Client/http2Server producing the control items; the Go scheduler (run()'s runtime.Gosched batching heuristic only delays a flush). "
+       "The run() loop itself IS tied: component s_loopyrun runs the real loopyWriter.run() goroutine on a real controlBuffer inside a synctest "
+       "bubble and compares, per control item, everything written until quiescence and the state at quiescence with the model's big step "
+       "(handle, then processData until isEmpty), and checks the idle condition sendQuota = 0 or activeStreams empty")
+ASSUMPTIONS = ["stream ids are never registered while still established"]
 RULE = ("same generator as C01 (6 profiles incl. window-starved and SETTINGS storms, hand-written cases incl. round-robin and "
-        "window-update-before-waiting); a case is non-trivial when the real writer emitted DATA and at least one stream had to wait for stream quota")
+        "window-update-before-waiting) for the T1 component, plus ~120 (quick) histories without tick ops for the T2 component s_loopyrun (header "
+        "fields restricted to :status 200 so that HPACK block lengths are state-independent; applySettings' wake order recovered from the order "
+        "in which the woken streams first write); a case is non-trivial when the real writer emitted DATA and at least one stream had to wait for stream quota")
 
 
 def gen(rng, tier):
-    return loopygen.gen_cases(rng, tier, "loopylive")
+    yield from loopygen.gen_cases(rng, tier, "loopylive")
+    yield from loopygen.gen_run_cases(rng, tier)
 
 
 nontrivial = loopygen.nontrivial
